@@ -29,7 +29,7 @@ Tests(pre) ==
      [t |-> "filt", e |-> AbsP(<<Dos, St("child", [k |-> "any"])>>), preds |-> <<[t |-> "fn", name |-> "last", args |-> <<>>]>>,
       steps |-> <<St("namespace", [k |-> "any"])>>] >>                                             \* (//*)[last()]/namespace::*
 TestNames == <<"//a", "//e:a", "//e:*", "//*", "//@x", "//@e:x", "//@*", "/*/namespace::*", "(//*)[last()]/namespace::*">>
-Bindings == << <<<<II, U1>>>>, <<<<II, U2>>>> >>
+Bindings == << <<<<II, U1>>>>, <<<<II, U2>>>>, <<<<II, XmlUri>>>> >>
 
 OKV == [verdict |-> "ok"]
 Viol(why, extra) == [verdict |-> "VIOLATION", why |-> why] @@ extra
@@ -79,6 +79,17 @@ Verdict(e) ==
   IF qp2 # {} THEN
        LET x == CHOOSE x \in qp2 : TRUE IN
        Viol("renaming the document's prefixes consistently changed a selection", [text |-> e.text, test |-> TestNames[x[2]]])
+  ELSE \* binding the caller's prefix again replaces its binding: after add_ns(e, other) ; add_ns(e, u1) the name
+       \* tests see u1
+       LET rb == { q \in 1..Len(e.rebind) : ~SameNodes(e.rebind[q], EvalTop(d, Tests(II)[q], Bindings[1])) } IN
+       IF rb # {} THEN Viol("a prefix bound a second time keeps its first binding", [text |-> e.text, test |-> TestNames[CHOOSE q \in rb : TRUE]])
+  ELSE \* after an edit through the DOM (a namespace declaration set or removed on an ancestor, a subtree moved)
+       \* every element resolves as it does in a fresh parse of the document's serialization
+       LET eb == { k \in 1..Len(e.edits) : e.edits[k].live # e.edits[k].re } IN
+       IF eb # {} THEN
+            LET k == CHOOSE k \in eb : \A j \in eb : k <= j IN
+            Viol("after a DOM edit an element's expanded name / in-scope namespaces differ from a fresh parse of the serialization",
+                 [text |-> e.text, edit |-> e.edits[k].edit, serialization |-> e.edits[k].text])
   ELSE \* xq --setns xmlns:e=<uri>: prints exactly the nodes the specification selects under that binding
        LET bad == { k \in 1..Len(e.xq) :
                       LET r == e.xq[k] IN
